@@ -19,13 +19,13 @@ EXPLANATION = (
 
 
 class C41(vlib.Spec):
-    model_vo = ["theories/HydroB/PC41.vo", "theories/HydroB/XPartition.vo"]
+    model_vo = ["theories/HydroB/PC41.vo", "theories/HydroB/XLoc.vo"]
     props_vo = "theories/Props/C41.vo"
     theorems = ["C41_guarded_accepted_partial", "C41_tick_cycles_accepted_partial",
                 "C41_emitter_arities_partial", "C41_emitted_in_arities_partial", "C41_emitted_arities", "C41_refuted_sync_forward_ref", "C41_refuted_unimplemented"]
     crate, group, binary = "h_hydro_b", "hydro", "h_hydro_b"
     imports = ("From Coq Require Import List String NArith.\n"
-               "From HV Require Import HydroB.Model HydroB.GenOps HydroB.XPartition.\nImport ListNotations.\nOpen Scope string_scope.")
+               "From HV Require Import HydroB.Model HydroB.GenOps HydroB.XPartition HydroB.XLoc.\nImport ListNotations.\nOpen Scope string_scope.")
     level = "other"
     trusted_base = ["coqc 8.16.1 kernel (vm_compute for case evaluation and the finite fragment/arity check)",
                     "hand-written Gallina model coq/theories/HydroB/Model.v of hydro_lang emit_core (fragment)",
